@@ -1,5 +1,5 @@
 (* Committed census of WRITABLE-arming and output-queueing sites in lib/src/protocol/mux
-   (file, function, arming calls, queueing sites).  Regenerate with
+   (file, function, arms WRITABLE?, queues output?).  Regenerate with
    python3 -c "import sys; sys.path[:0]=['tools','.']; import props.c01 as p; p.freeze()" and review the diff. *)
 From Coq Require Import String List.
 From SV Require Import C01.Model.
@@ -7,42 +7,42 @@ Import ListNotations.
 Open Scope string_scope.
 
 Definition committed_census : list census_row :=
-  [("answers.rs", "terminate_default_answer", 0, 3);
-   ("answers.rs", "copy_default_answer_to_stream", 0, 2);
-   ("answers.rs", "ensure_default_answer_end_stream", 0, 1);
-   ("answers.rs", "set_default_answer_with_retry_after", 1, 0);
-   ("answers.rs", "forcefully_terminate_answer", 1, 0);
-   ("h1.rs", "terminate_close_delimited", 0, 1);
-   ("h1.rs", "readable", 3, 1);
-   ("h1.rs", "writable", 2, 0);
-   ("h1.rs", "force_disconnect", 1, 0);
-   ("h1.rs", "initiate_close_notify", 1, 0);
-   ("h1.rs", "end_stream", 2, 0);
-   ("h2.rs", "enqueue_rst_into", 1, 0);
-   ("h2.rs", "handle_header_state", 0, 1);
-   ("h2.rs", "readable", 1, 2);
-   ("h2.rs", "ensure_tls_flushed", 1, 0);
-   ("h2.rs", "finalize_write", 1, 0);
-   ("h2.rs", "flush_pending_control_frames", 0, 2);
-   ("h2.rs", "writable", 0, 2);
-   ("h2.rs", "queue_window_update", 1, 0);
-   ("h2.rs", "cancel_timed_out_streams", 0, 1);
-   ("h2.rs", "refuse_stream_and_discard", 0, 1);
-   ("h2.rs", "goaway", 1, 1);
-   ("h2.rs", "graceful_goaway", 1, 1);
-   ("h2.rs", "handle_data_frame", 4, 4);
-   ("h2.rs", "handle_headers_frame", 1, 0);
-   ("h2.rs", "handle_priority_update_frame", 1, 0);
-   ("h2.rs", "handle_settings_frame", 1, 1);
-   ("h2.rs", "handle_ping_frame", 1, 1);
-   ("h2.rs", "handle_window_update_frame", 2, 0);
-   ("h2.rs", "update_initial_window_size", 1, 0);
-   ("h2.rs", "reset_stream", 0, 1);
-   ("h2.rs", "end_stream", 3, 2);
-   ("h2.rs", "start_stream", 1, 0);
-   ("mod.rs", "delay_close_for_frontend_flush", 1, 0);
-   ("mod.rs", "drive_frontend_shutdown_io", 1, 0);
-   ("mod.rs", "shutting_down", 1, 0)].
+  [("answers.rs", "terminate_default_answer", false, true);
+   ("answers.rs", "copy_default_answer_to_stream", false, true);
+   ("answers.rs", "ensure_default_answer_end_stream", false, true);
+   ("answers.rs", "set_default_answer_with_retry_after", true, false);
+   ("answers.rs", "forcefully_terminate_answer", true, false);
+   ("h1.rs", "terminate_close_delimited", false, true);
+   ("h1.rs", "readable", true, true);
+   ("h1.rs", "writable", true, false);
+   ("h1.rs", "force_disconnect", true, false);
+   ("h1.rs", "initiate_close_notify", true, false);
+   ("h1.rs", "end_stream", true, false);
+   ("h2.rs", "enqueue_rst_into", true, false);
+   ("h2.rs", "handle_header_state", false, true);
+   ("h2.rs", "readable", true, true);
+   ("h2.rs", "ensure_tls_flushed", true, false);
+   ("h2.rs", "finalize_write", true, false);
+   ("h2.rs", "flush_pending_control_frames", false, true);
+   ("h2.rs", "writable", false, true);
+   ("h2.rs", "queue_window_update", true, false);
+   ("h2.rs", "cancel_timed_out_streams", false, true);
+   ("h2.rs", "refuse_stream_and_discard", false, true);
+   ("h2.rs", "goaway", true, true);
+   ("h2.rs", "graceful_goaway", true, true);
+   ("h2.rs", "handle_data_frame", true, true);
+   ("h2.rs", "handle_headers_frame", true, false);
+   ("h2.rs", "handle_priority_update_frame", true, false);
+   ("h2.rs", "handle_settings_frame", true, true);
+   ("h2.rs", "handle_ping_frame", true, true);
+   ("h2.rs", "handle_window_update_frame", true, false);
+   ("h2.rs", "update_initial_window_size", true, false);
+   ("h2.rs", "reset_stream", false, true);
+   ("h2.rs", "end_stream", true, true);
+   ("h2.rs", "start_stream", true, false);
+   ("mod.rs", "delay_close_for_frontend_flush", true, false);
+   ("mod.rs", "drive_frontend_shutdown_io", true, false);
+   ("mod.rs", "shutting_down", true, false)].
 
 Definition entry_points : list (string * string) :=
   [("answers.rs", "set_default_answer_with_retry_after"); ("answers.rs", "forcefully_terminate_answer"); ("h1.rs", "end_stream"); ("h2.rs", "end_stream"); ("h1.rs", "readable")].
